@@ -1,4 +1,5 @@
 import Proofs.BanditAgent
+import Proofs.BanditGenEq
 
 /-!
 # C19 — neural bandits keep an exact inverse of their regularised Gram matrix
@@ -18,6 +19,12 @@ every finite sequence of operations; matrices have no size bound.  `Sem` selects
 `code` (`sigma_inv₀ = lamb·I` as `init_params` writes it today, hence `Z₀ = I/lamb`);
 both are covered, they coincide for the default `lamb = 1` (`C19_default_lambda_agrees`), and
 `C19_code_lambda_witness` shows that the `code` variant is *not* the inverse of `lamb·I` for `lamb = 2`.
+
+Source translation: `harness/py2lean_bandit.py` translates the tensor expressions of `init_params` and
+`get_action` of both classes from the source text into `Gen/BanditGen.lean` (a generic tensor prelude with
+shapes inferred from the AST); `Proofs/BanditGenEq.lean` proves the generated definitions equal to `sigma0 .paper`,
+`bonus`, `smUpdate`, … under the shape invariant; the `C19_source_translation_*` theorems below restate the
+property over the generated definitions, so they are re-checked against what the code says now.
 -/
 open Matrix
 
@@ -142,6 +149,206 @@ theorem C19_hook_needed_witness :
     ((Agent.mk0 .code 1 2).setArch 3).accepts [1, 2, 3] = false ∧
     ((Agent.mk0 .code 1 2).mutate 3).Sized := by decide +kernel
 
+/-! ### the property over the definitions generated from the source text
+
+`BanditGen.UCB.*` / `BanditGen.TS.*` are produced by `harness/py2lean_bandit.py` from
+`agilerl/algorithms/neural_{ucb,ts}_bandit.py` (regenerated before every check).  A history is what the code
+sees: `init` once (the layer's parameter list and `lamb` are inputs), then per `get_action` call the feature
+matrix `feat` (one gradient row per arm — the network is not translated) and either the chosen arm
+(`genRun`: every possible choice) or the network outputs and the mask (`actRun`: the arm the translated argmax
+picks).  The shape hypothesis is the one the code maintains: every chosen feature row has `numel` entries. -/
+section source_translation
+open BanditGen
+
+/-- every generated definition equals its counterpart in the hand-written model, for both classes -/
+theorem C19_source_translation_equalities (lamb γ : Rat) (sqrt : Rat → Rat) (normal : Mat → Mat → Mat)
+    (ps : List LayerParam) (n : Nat) (S mu feat q : Mat) (mask : Option (List Rat)) (a : Nat)
+    (hS : S.length = n) (hv : (feat.getD a []).length = n) :
+    (UCB.numel0 ps = layerNumel ps ∧ TS.numel0 ps = layerNumel ps) ∧
+    (UCB.sigma0 lamb n = sigma0 .paper lamb n ∧ TS.sigma0 lamb n = sigma0 .paper lamb n) ∧
+    (UCB.sqrt_arg n S feat = bonusRows S feat ∧ TS.sqrt_arg n S feat = bonusRows S feat) ∧
+    (UCB.scores sqrt γ mu q = ucbScores sqrt γ mu q ∧ TS.scores normal sqrt γ mu q = tsScores normal sqrt γ mu q) ∧
+    (UCB.arm mask q = pickArm q.flatten mask ∧ TS.arm mask q = pickArm q.flatten mask) ∧
+    (UCB.update n S feat a = smUpdate S (feat.getD a []) ∧ TS.update n S feat a = smUpdate S (feat.getD a [])) :=
+  ⟨⟨gen_ucb_numel0_eq ps, gen_ts_numel0_eq ps⟩, ⟨gen_ucb_sigma0_eq lamb n, gen_ts_sigma0_eq lamb n⟩,
+   ⟨gen_ucb_sqrt_arg_eq feat hS, gen_ts_sqrt_arg_eq feat hS⟩,
+   ⟨gen_ucb_scores_eq sqrt γ mu q, gen_ts_scores_eq normal sqrt γ mu q⟩,
+   ⟨gen_ucb_arm_eq mask q, gen_ts_arm_eq mask q⟩,
+   ⟨gen_ucb_update_eq feat a hS hv, gen_ts_update_eq feat a hS hv⟩⟩
+
+/-- **initialisation, over the generated code**: `init_params` sets `numel` to the number of trainable scalars
+    of the output layer and `sigma_inv` to a `numel × numel` matrix that is the two-sided inverse of
+    `lamb × identity` -/
+theorem C19_source_translation_init (lamb : Rat) (hl : 0 < lamb) (ps : List LayerParam) :
+    let n := layerNumel ps
+    (UCB.init lamb ps).1 = n ∧ (TS.init lamb ps).1 = n ∧ (TS.init lamb ps).2 = (UCB.init lamb ps).2 ∧
+    WellShaped n (UCB.init lamb ps).2 ∧
+    matMul n (scaledIdentity n lamb) (UCB.init lamb ps).2 = identity n ∧
+    matMul n (UCB.init lamb ps).2 (scaledIdentity n lamb) = identity n := by
+  intro n
+  have hu : UCB.init lamb ps = (n, sigma0 .paper lamb n) := by
+    simp only [UCB.init, gen_ucb_numel0_eq, gen_ucb_sigma0_eq, n]
+  have ht : TS.init lamb ps = (n, sigma0 .paper lamb n) := by
+    simp only [TS.init, gen_ts_numel0_eq, gen_ts_sigma0_eq, n]
+  have h := C19_inverse_invariant .paper lamb hl n []
+  rw [hu, ht]
+  exact ⟨rfl, rfl, rfl, sigma0_wellShaped .paper lamb n, h.1, h.2.1⟩
+
+/-- what the generated code leaves in `sigma_inv` after `init` and the updates of a history, for both classes -/
+theorem C19_source_translation_run_is_model (lamb : Rat) (ps : List LayerParam) (hist : List (Mat × Nat))
+    (hrow : ∀ d ∈ hist, (d.1.getD d.2 []).length = layerNumel ps) :
+    genRun UCB.update (UCB.init lamb ps) hist = (chosen hist).foldl smUpdate (sigma0 .paper lamb (layerNumel ps)) ∧
+    genRun TS.update (TS.init lamb ps) hist = (chosen hist).foldl smUpdate (sigma0 .paper lamb (layerNumel ps)) := by
+  have hlen : (sigma0 .paper lamb (layerNumel ps)).length = layerNumel ps := (sigma0_wellShaped _ _ _).1
+  constructor
+  · have hu : UCB.init lamb ps = (layerNumel ps, sigma0 .paper lamb (layerNumel ps)) := by
+      simp only [UCB.init, gen_ucb_numel0_eq, gen_ucb_sigma0_eq]
+    rw [genRun, hu]
+    exact foldl_update_eq UCB.update _ (fun S feat a h1 h2 => gen_ucb_update_eq feat a h1 h2) hist _ hlen hrow
+  · have ht : TS.init lamb ps = (layerNumel ps, sigma0 .paper lamb (layerNumel ps)) := by
+      simp only [TS.init, gen_ts_numel0_eq, gen_ts_sigma0_eq]
+    rw [genRun, ht]
+    exact foldl_update_eq TS.update _ (fun S feat a h1 h2 => gen_ts_update_eq feat a h1 h2) hist _ hlen hrow
+
+/-- the facts of C19 about a fold of `smUpdate` from the repaired initialisation (from the theorems above) -/
+theorem C19_fold_facts (lamb : Rat) (hl : 0 < lamb) (n : Nat) (vs : List Vec) (hv : ∀ v ∈ vs, v.length = n) :
+    let S := vs.foldl smUpdate (sigma0 .paper lamb n)
+    let Z := gram (scaledIdentity n lamb) vs
+    WellShaped n S ∧ matMul n Z S = identity n ∧ matMul n S Z = identity n ∧
+    (∀ i j, i < n → j < n → S.get i j = S.get j i) ∧
+    (∀ g : Vec, g.length = n → 0 ≤ bonus S g) ∧ (∀ g : Vec, g.length = n → 1 ≤ smDenom S g) := by
+  intro S Z
+  obtain ⟨h1, h2, h3⟩ := foldl_smUpdate_model lamb n vs hv
+  have hinv := C19_inverse_invariant .paper lamb hl n (vs.map Op.update)
+  have hsym := C19_symmetric .paper lamb hl n (vs.map Op.update)
+  have hpd := C19_posdef .paper lamb hl n (vs.map Op.update)
+  have hsz := C19_size_matches_output_layer .paper lamb n (vs.map Op.update)
+  have hbn := fun g => C19_bonus_nonneg .paper lamb hl n (vs.map Op.update) g
+  simp only [h2, h3, ← h1] at hinv hsym hpd hsz hbn
+  refine ⟨⟨?_, ?_⟩, hinv.1, hinv.2.1, hsym.1, hbn, hpd.2.1⟩
+  · rw [hsz.2.1, ← hsz.1]
+  · intro r hr; rw [hsz.2.2 r hr, ← hsz.1]
+
+/-- **the property over the generated code**: after `init_params` and any number of decisions — whatever the
+    feature matrices and whichever arms are chosen — the matrix the translated Sherman–Morrison statement
+    leaves in `sigma_inv` is `numel × numel`, the two-sided inverse of `lamb × identity + Σ g gᵀ` over the
+    chosen feature rows, symmetric; the quantity under the square root of every arm's exploration bonus is
+    non-negative and the denominator of the next update is at least 1.  NeuralUCB and NeuralTS alike. -/
+theorem C19_source_translation_inverse_invariant (lamb : Rat) (hl : 0 < lamb) (ps : List LayerParam)
+    (hist : List (Mat × Nat)) (hrow : ∀ d ∈ hist, (d.1.getD d.2 []).length = layerNumel ps) :
+    let n := layerNumel ps
+    let Z := gram (scaledIdentity n lamb) (chosen hist)
+    ∀ S, (S = genRun UCB.update (UCB.init lamb ps) hist ∨ S = genRun TS.update (TS.init lamb ps) hist) →
+      WellShaped n S ∧ matMul n Z S = identity n ∧ matMul n S Z = identity n ∧
+      (∀ i j, i < n → j < n → S.get i j = S.get j i) ∧
+      (∀ g : Vec, g.length = n → 0 ≤ bonus S g) ∧ (∀ g : Vec, g.length = n → 1 ≤ smDenom S g) := by
+  intro n Z S hS
+  obtain ⟨hu, ht⟩ := C19_source_translation_run_is_model lamb ps hist hrow
+  have hS' : S = (chosen hist).foldl smUpdate (sigma0 .paper lamb n) := by
+    rcases hS with h | h
+    · rw [h, hu]
+    · rw [h, ht]
+  subst hS'
+  exact C19_fold_facts lamb hl n (chosen hist) (by
+    intro v hv
+    simp only [chosen, List.mem_map] at hv
+    obtain ⟨d, hd, rfl⟩ := hv
+    exact hrow d hd)
+
+/-- **the exploration term over the generated code**: along every such history every entry of the tensor the
+    code hands to `torch.sqrt` (one per arm: `g[k] sigma_inv g[k]ᵀ`) is non-negative, so the bonus
+    `gamma * sqrt(·)` of NeuralUCB and the standard deviation NeuralTS hands to `torch.normal` are defined -/
+theorem C19_source_translation_bonus_nonneg (lamb : Rat) (hl : 0 < lamb) (ps : List LayerParam)
+    (hist : List (Mat × Nat)) (hrow : ∀ d ∈ hist, (d.1.getD d.2 []).length = layerNumel ps)
+    (feat : Mat) (hfeat : ∀ r ∈ feat, r.length = layerNumel ps) :
+    let n := layerNumel ps
+    (∀ row ∈ UCB.sqrt_arg n (genRun UCB.update (UCB.init lamb ps) hist) feat, ∀ x ∈ row, 0 ≤ x) ∧
+    (∀ row ∈ TS.sqrt_arg n (genRun TS.update (TS.init lamb ps) hist) feat, ∀ x ∈ row, 0 ≤ x) := by
+  intro n
+  have hu := C19_source_translation_inverse_invariant lamb hl ps hist hrow _ (Or.inl rfl)
+  have ht := C19_source_translation_inverse_invariant lamb hl ps hist hrow _ (Or.inr rfl)
+  constructor
+  · rw [gen_ucb_sqrt_arg_eq feat hu.1.1]
+    intro row hr x hx
+    simp only [bonusRows, List.mem_map] at hr
+    obtain ⟨r, hrf, rfl⟩ := hr
+    rw [List.mem_singleton] at hx
+    subst hx
+    exact hu.2.2.2.2.1 r (hfeat r hrf)
+  · rw [gen_ts_sqrt_arg_eq feat ht.1.1]
+    intro row hr x hx
+    simp only [bonusRows, List.mem_map] at hr
+    obtain ⟨r, hrf, rfl⟩ := hr
+    rw [List.mem_singleton] at hx
+    subst hx
+    exact ht.2.2.2.2.1 r (hfeat r hrf)
+
+/-- **`get_action` over the generated code**: the translated method returns the arm `pickArm` of its own scores
+    and leaves in `sigma_inv` the Sherman–Morrison update with exactly that arm's feature row -/
+theorem C19_source_translation_act (sqrt : Rat → Rat) (normal : Mat → Mat → Mat) (γ : Rat) (n : Nat)
+    (S mu feat : Mat) (mask : Option (List Rat)) (hS : S.length = n) (hrows : ∀ a, (feat.getD a []).length = n) :
+    (UCB.act sqrt γ n S mu feat mask =
+      (let a := pickArm (ucbScores sqrt γ mu (bonusRows S feat)).flatten mask; (a, smUpdate S (feat.getD a [])))) ∧
+    (TS.act normal sqrt γ n S mu feat mask =
+      (let a := pickArm (tsScores normal sqrt γ mu (bonusRows S feat)).flatten mask; (a, smUpdate S (feat.getD a [])))) :=
+  ⟨gen_ucb_act_eq sqrt γ mu feat mask hS hrows, gen_ts_act_eq normal sqrt γ mu feat mask hS hrows⟩
+
+/-- **the chosen arm over the generated code**: the translated `np.argmax` picks, without a mask, the first
+    maximum of the flattened scores; with a mask that allows at least one arm (`mask = 1`), an allowed arm that
+    is the first maximum among the allowed ones — so the feature row of the update is a row of `feat` -/
+theorem C19_source_translation_arm (sc : Mat) (m : List Rat) (hne : sc.flatten ≠ []) :
+    let q := sc.flatten
+    (UCB.arm none sc = TS.arm none sc ∧ UCB.arm none sc < q.length ∧
+      (∀ j, j < q.length → q.getD j 0 ≤ q.getD (UCB.arm none sc) 0) ∧
+      (∀ j, j < UCB.arm none sc → q.getD j 0 < q.getD (UCB.arm none sc) 0)) ∧
+    (m.length = q.length → (∃ i, i < q.length ∧ m.getD i 0 = 1) →
+      UCB.arm (some m) sc = TS.arm (some m) sc ∧ UCB.arm (some m) sc < q.length ∧
+      m.getD (UCB.arm (some m) sc) 0 = 1 ∧
+      (∀ j, j < q.length → m.getD j 0 = 1 → q.getD j 0 ≤ q.getD (UCB.arm (some m) sc) 0) ∧
+      (∀ j, j < UCB.arm (some m) sc → m.getD j 0 = 1 → q.getD j 0 < q.getD (UCB.arm (some m) sc) 0)) := by
+  intro q
+  rw [gen_ucb_arm_eq, gen_ts_arm_eq, gen_ucb_arm_eq, gen_ts_arm_eq]
+  exact ⟨⟨rfl, pickArm_none_spec q hne⟩, fun hlen ⟨i, hi, hall⟩ => ⟨rfl, pickArm_some_spec q m hlen i hi hall⟩⟩
+
+/-- **histories of `get_action` calls over the generated code**: run the translated method itself on any
+    sequence of inputs (network outputs, feature matrix, optional mask); if the rows it picks have `numel`
+    entries, the final `sigma_inv` is the inverse of `lamb × identity + Σ g gᵀ` over exactly the rows the
+    translated argmax picked, symmetric, with non-negative bonuses -/
+theorem C19_source_translation_act_history (sqrt : Rat → Rat) (normal : Mat → Mat → Mat) (γ lamb : Rat)
+    (hl : 0 < lamb) (ps : List LayerParam) (inputs : List (Mat × Mat × Option (List Rat))) :
+    let n := layerNumel ps
+    ∀ out, (out = actRun (UCB.act sqrt γ n) (UCB.init lamb ps).2 inputs ∨
+            out = actRun (TS.act normal sqrt γ n) (TS.init lamb ps).2 inputs) →
+      (∀ v ∈ out.1, v.length = n) →
+      WellShaped n out.2 ∧ matMul n (gram (scaledIdentity n lamb) out.1) out.2 = identity n ∧
+      matMul n out.2 (gram (scaledIdentity n lamb) out.1) = identity n ∧
+      (∀ i j, i < n → j < n → out.2.get i j = out.2.get j i) ∧ (∀ g : Vec, g.length = n → 0 ≤ bonus out.2 g) := by
+  intro n out hout hlen
+  have hlen0 : (sigma0 .paper lamb n).length = n := (sigma0_wellShaped _ _ _).1
+  have hu : (UCB.init lamb ps).2 = sigma0 .paper lamb n := by
+    simp only [UCB.init, gen_ucb_numel0_eq, gen_ucb_sigma0_eq, n]
+  have ht : (TS.init lamb ps).2 = sigma0 .paper lamb n := by
+    simp only [TS.init, gen_ts_numel0_eq, gen_ts_sigma0_eq, n]
+  have key : out.2 = out.1.foldl smUpdate (sigma0 .paper lamb n) := by
+    rcases hout with h | h
+    · subst h
+      rw [hu] at hlen ⊢
+      exact actRun_eq (UCB.act sqrt γ n) n (fun S mu feat mask hS hv => gen_ucb_update_eq feat _ hS hv) inputs _ hlen0 hlen
+    · subst h
+      rw [ht] at hlen ⊢
+      exact actRun_eq (TS.act normal sqrt γ n) n (fun S mu feat mask hS hv => gen_ts_update_eq feat _ hS hv) inputs _ hlen0 hlen
+  have hf := C19_fold_facts lamb hl n out.1 hlen
+  rw [key]
+  exact ⟨hf.1, hf.2.1, hf.2.2.1, hf.2.2.2.1, hf.2.2.2.2.1⟩
+
+/-- a changed initialisation is not absorbed: with `* lamb` in place of `/ lamb` (the defect D16) the initial
+    matrix is not the inverse of `lamb × identity` — the equality `gen_*_sigma0_eq` has content -/
+theorem C19_source_translation_init_witness :
+    (UCB.init 2 [⟨1, true⟩]).2 = [[1/2]] ∧ ¬ (matMul 1 (scaledIdentity 1 2) (emap2 (fun x => x * 2) (eye 1)) = identity 1) := by
+  decide +kernel
+
+end source_translation
+
 /-! ### non-vacuity: concrete histories satisfy the hypotheses, conclusions are the expected values -/
 
 /-- λ = 2 (paper reading), two decisions in dimension 2 -/
@@ -163,5 +370,20 @@ example : demo.numel = 3 ∧ demo.hist = [[1, 1, 0], [0, 0, 2]] ∧ demo.checkIn
 example : ((Agent.mk0 .code (1/2) 2).update [1, 1]).loadFrom demo = demo := by decide +kernel
 /-- a feature of the wrong length is rejected and changes nothing -/
 example : (Agent.mk0 .paper 1 2).update [1, 2, 3] = Agent.mk0 .paper 1 2 := by decide +kernel
+
+/-- the generated code on the history of the first example (λ = 2, dimension 2: a layer with one trainable
+    2-parameter tensor and a frozen one): hypotheses of `C19_source_translation_inverse_invariant` hold, the
+    result is the model's matrix -/
+def genHist : List (Mat × Nat) := [([[0, 0], [1, 1/2]], 1), ([[0, 3], [7, 7]], 0)]
+example : ∀ d ∈ genHist, (d.1.getD d.2 []).length = layerNumel [⟨2, true⟩, ⟨5, false⟩] := by decide +kernel
+example : chosen genHist = [[1, 1/2], [0, 3]] := by decide +kernel
+example : genRun BanditGen.UCB.update (BanditGen.UCB.init 2 [⟨2, true⟩, ⟨5, false⟩]) genHist
+    = [[45/134, -1/67], [-1/67, 6/67]] ∧
+    genRun BanditGen.TS.update (BanditGen.TS.init 2 [⟨2, true⟩, ⟨5, false⟩]) genHist
+    = [[45/134, -1/67], [-1/67, 6/67]] := by decide +kernel
+/-- `get_action` itself (sqrt := id, γ = 1) on two calls: it picks arm 2, then under the mask arm 1 -/
+example : actRun (BanditGen.UCB.act id 1 2) (BanditGen.UCB.init 2 [⟨2, true⟩]).2
+    [([[1], [0], [0]], [[0, 0], [1, 1/2], [0, 3]], none), ([[0], [0], [0]], [[0, 0], [1, 1/2], [0, 3]], some [1, 1, 0])]
+    = ([[0, 3], [1, 1/2]], [[45/134, -1/67], [-1/67, 6/67]]) := by decide +kernel
 
 end Bandit
